@@ -242,3 +242,9 @@ pub fn record_histogram(path: &str, seed: u64, n: usize, len: usize, rep: &mut R
     out.flush().unwrap();
     rep.counters.insert("traces".into(), rep.behaviours);
 }
+
+pub fn ensure_dir(path: &str) {
+    if let Some(d) = std::path::Path::new(path).parent() {
+        std::fs::create_dir_all(d).ok();
+    }
+}
